@@ -74,20 +74,74 @@ func c10r1(c *core.Ctx) {
 			})
 		})
 	}
-	// the writes, directly in the loop or in a helper the loop hands the connection to
+	// the writes, directly in the loop or in a helper the loop hands the connection to. The connection written to is an element of
+	// ActiveConnections(), or an element of a list that was filled with such elements beforehand ("collect the recipients, then
+	// send"): in that case the guards are owed where the element is put on the list.
+	type guardAt struct {
+		site ssa.Instruction
+		conn ssa.Value
+	}
 	var writes []ssa.Instruction
 	connOf := map[ssa.Instruction]ssa.Value{}
 	perSite := map[ssa.Instruction]int{}
+	guardsOf := map[ssa.Instruction][]guardAt{}
+	collected := func(v ssa.Value) []guardAt {
+		var out []guardAt
+		bad := false
+		for _, s := range core.Sources(v) {
+			u, ok := s.(*ssa.UnOp)
+			if !ok {
+				return nil
+			}
+			ia, ok := u.X.(*ssa.IndexAddr)
+			if !ok {
+				return nil
+			}
+			for _, ls := range core.Sources(ia.X) {
+				call, ok := ls.(*ssa.Call)
+				if !ok {
+					if k, isK := ls.(*ssa.Const); isK && k.IsNil() {
+						continue
+					}
+					if _, isMk := ls.(*ssa.MakeSlice); isMk {
+						continue
+					}
+					bad = true
+					continue
+				}
+				b, isB := call.Call.Value.(*ssa.Builtin)
+				if !isB || b.Name() != "append" {
+					bad = true
+					continue
+				}
+				for _, x := range appendedValues(call) {
+					if !isElem(x) {
+						bad = true
+						continue
+					}
+					out = append(out, guardAt{call, x})
+				}
+			}
+		}
+		if bad {
+			return nil
+		}
+		return out
+	}
 	for _, l := range liftedSites(f, func(i ssa.Instruction) bool {
 		return core.IsInvoke(i, "net.Conn", "Write") || core.IsInvoke(i, "io.Writer", "Write")
 	}) {
 		cv := l.val(core.CallOf(l.inner).Value)
-		if !isElem(cv) {
+		var gs []guardAt
+		if isElem(cv) {
+			gs = []guardAt{{l.at, cv}}
+		} else if gs = collected(cv); len(gs) == 0 {
 			continue
 		}
 		if perSite[l.at] == 0 {
 			writes = append(writes, l.at)
 			connOf[l.at] = cv
+			guardsOf[l.at] = gs
 		}
 		perSite[l.at]++
 	}
@@ -96,27 +150,33 @@ func c10r1(c *core.Ctx) {
 		return
 	}
 	for _, w := range writes {
-		conn := connOf[w]
-		notOrigin := core.CmpFact(func(x, y ssa.Value) (bool, bool) {
-			if (sameValue(x, conn) && y == ssa.Value(pexcept)) || (sameValue(y, conn) && x == ssa.Value(pexcept)) {
-				return false, true
-			}
-			return false, false
-		})
-		isSessOfConn := func(v ssa.Value) bool {
-			return core.AnySource(v, func(s ssa.Value) bool {
-				call, ok := s.(*ssa.Call)
-				return ok && core.IsInvoke(call, qContext, "GetSessionForConnection") && sameValue(call.Call.Args[0], conn)
+		okOrigin, okSession, okSub := true, true, true
+		for _, g := range guardsOf[w] {
+			conn := g.conn
+			notOrigin := core.CmpFact(func(x, y ssa.Value) (bool, bool) {
+				if (sameValue(x, conn) && y == ssa.Value(pexcept)) || (sameValue(y, conn) && x == ssa.Value(pexcept)) {
+					return false, true
+				}
+				return false, false
 			})
+			isSessOfConn := func(v ssa.Value) bool {
+				return core.AnySource(v, func(s ssa.Value) bool {
+					call, ok := s.(*ssa.Call)
+					return ok && core.IsInvoke(call, qContext, "GetSessionForConnection") && sameValue(call.Call.Args[0], conn)
+				})
+			}
+			hasSession := core.NonNilFact(isSessOfConn)
+			subscribed := core.TrueFact(func(v ssa.Value) bool {
+				call, ok := v.(*ssa.Call)
+				return ok && core.IsInvoke(call, qSession, "IsSubscribedTo") && isSessOfConn(call.Call.Value) && call.Call.Args[0] == ssa.Value(pc)
+			})
+			okOrigin = okOrigin && core.Dominated(g.site, notOrigin)
+			okSession = okSession && core.Dominated(g.site, hasSession)
+			okSub = okSub && core.Dominated(g.site, subscribed)
 		}
-		hasSession := core.NonNilFact(isSessOfConn)
-		subscribed := core.TrueFact(func(v ssa.Value) bool {
-			call, ok := v.(*ssa.Call)
-			return ok && core.IsInvoke(call, qSession, "IsSubscribedTo") && isSessOfConn(call.Call.Value) && call.Call.Args[0] == ssa.Value(pc)
-		})
-		c.Check(core.Dominated(w, notOrigin), "skip-originator@"+fname(f), posOf(w), "the write is dominated by conn != originator", "the connection that made the change is not excluded from the fan-out")
-		c.Check(core.Dominated(w, hasSession), "session-present@"+fname(f), posOf(w), "the write is dominated by a non-nil session of that connection", "a connection without session can be written to")
-		c.Check(core.Dominated(w, subscribed), "subscribed@"+fname(f), posOf(w), "the write is dominated by IsSubscribedTo(c) of that connection's session for the characteristic that changed",
+		c.Check(okOrigin, "skip-originator@"+fname(f), posOf(w), "the write is dominated by conn != originator", "the connection that made the change is not excluded from the fan-out")
+		c.Check(okSession, "session-present@"+fname(f), posOf(w), "the write is dominated by a non-nil session of that connection", "a connection without session can be written to")
+		c.Check(okSub, "subscribed@"+fname(f), posOf(w), "the write is dominated by IsSubscribedTo(c) of that connection's session for the characteristic that changed",
 			"the write is not dominated by 'this connection's session is subscribed to this characteristic': unsubscribed connections receive events")
 		// body provenance
 		bodyOK := false
@@ -129,6 +189,14 @@ func c10r1(c *core.Ctx) {
 			}
 		})
 		c.Check(bodyOK, "body@"+fname(f), posOf(w), "the notification is built for the accessory/characteristic that changed", "the notification is not built from the (accessory, characteristic) that changed")
+		// one notification object per recipient: its body is a reader that the first serialisation drains
+		freshOK := false
+		core.Instrs(f, func(i ssa.Instruction) {
+			if core.IsCall(i, mod+"/hap.NewCharacteristicNotification") && !cycleAvoiding(w, i) {
+				freshOK = true
+			}
+		})
+		c.Check(freshOK, "notification-per-recipient@"+fname(f), posOf(w), "every write is preceded by the creation of its own notification", "one notification object is serialised for several recipients: its body reader is drained by the first, the others receive headers announcing a body that never comes")
 	}
 	// at most one write per loop iteration
 	var header *ssa.BasicBlock
